@@ -847,6 +847,17 @@ def rule_lk1(ctx, rels, scope=None):
                         safe = True
                     core_v = v.operand if isinstance(v, ast.UnaryOp) else v
                     if isinstance(core_v, ast.Call) and dotted(
+                            core_v.func) in ("utils.number", "number") \
+                            and core_v.args:
+                        a0 = core_v.args[0]
+                        if isinstance(a0, ast.UnaryOp):
+                            a0 = a0.operand
+                        if isinstance(a0, ast.Constant) and isinstance(
+                                a0.value, int) and not isinstance(
+                                    a0.value, bool):
+                            safe = True  # an integer literal: exact in
+                            #              every dtype the buffer can have
+                    if isinstance(core_v, ast.Call) and dotted(
                             core_v.func) in (
                             "utils.real", "utils.imag", "np.real", "np.imag",
                             "np.conjugate", "utils.conjugate") \
